@@ -60,6 +60,12 @@ class EnumGenerator:
         if not re.match(r"^[A-Z_]", sanitized_member_name.upper()):
             sanitized_member_name = f"MEMBER_{sanitized_member_name}"
 
+        # A leading underscore is not a usable member name: Enum reserves _X_ ("_sunder_" names), a name starting
+        # with two underscores is mangled inside the class body, and a bare "_" is what symbol-only values derive to
+        # (its de-duplicated sibling "__1" would then silently disappear)
+        if sanitized_member_name.startswith("_"):
+            sanitized_member_name = f"MEMBER{sanitized_member_name}"
+
         if not (sanitized_member_name and re.match(r"^[A-Z_][A-Z0-9_]*$", sanitized_member_name.upper())):
             raise ValueError(
                 f"Generated string enum member name '{sanitized_member_name}' "
